@@ -333,6 +333,7 @@ Proof.
         destruct (single_digit t); cbn; exact I.
     + intros k t. unfold o_f2i, o_int. rewrite failing_oracle_other by (destruct k; reflexivity). exact I.
     + intros t. unfold o_int. rewrite failing_oracle_other by reflexivity. exact I.
+    + intros t. unfold o_int. rewrite failing_oracle_other by reflexivity. exact I.
     + intros fn a. unfold o_text, o_call, failing_oracle.
       destruct (fn_is fn [bs "pf32"; bs "pf64"] && single_digit a); [cbn; exact I|].
       destruct (fn_is fn [bs "bf"; bs "nf"] && single_digit a); [cbn; exact I|].
